@@ -63,11 +63,12 @@ VARIABLES
     naux,       \* auxiliary records / corruptions so far
     lastRec,    \* result of the last completed recovery: [n, lo, ok]
     rdr,        \* a concurrent reader in the middle of a lookup: [pc, loc, seen, got]
+    cur,        \* an open btree iterator: [open, c, t, k] (position Start | End | At(k) | Seeked(k))
     trace       \* history of steps (only when Gen)
 
 vars == <<hist, logical, calls, queue, nextCid, covl, lw, nextRid, logs, rpos, lovl, cw,
           lastEnacted, tabs, dtabs, flushedCq, applied, durable, mode, rcv, ncrash, naux,
-          lastRec, rdr, trace>>
+          lastRec, rdr, cur, trace>>
 
 ----------------------------------------------------------------------------
 (* Data *)
@@ -169,6 +170,7 @@ Min(a, b) == IF a < b THEN a ELSE b
 RECURSIVE MaxH(_, _)
 MaxH(recs, i) == IF i > Len(recs) THEN 0 ELSE Max(recs[i].h, MaxH(recs, i + 1))
 
+NoCur == [open |-> FALSE, c |-> 0, t |-> "start", k |-> 0]
 Idle == [pc |-> "idle"]
 LwIdle == lw.pc = "idle"
 CwIdle == cw.pc = "idle"
@@ -210,6 +212,7 @@ Init ==
     /\ ncrash = 0 /\ naux = 0
     /\ lastRec = [n |-> 0, lo |-> 0, ok |-> TRUE, pre |-> 0]
     /\ rdr = [pc |-> "idle"]
+    /\ cur = NoCur
     /\ trace = <<>>
 
 ----------------------------------------------------------------------------
@@ -221,7 +224,7 @@ CovlReadLocked == rdr.pc \in {"lovl", "tabs"}
 
 OthersUnchanged == UNCHANGED <<hist, logical, calls, queue, nextCid, covl, lw, nextRid, logs, rpos, lovl,
                                cw, lastEnacted, tabs, dtabs, flushedCq, applied, durable, mode, rcv, ncrash,
-                               naux, lastRec, trace>>
+                               naux, lastRec, cur, trace>>
 
 RStart(l) ==
     /\ "reader" \in Feat /\ mode = "open" /\ rdr.pc = "idle"
@@ -259,6 +262,7 @@ Commit(tx) ==
     /\ logical' = ApplyTx(logical, tx)
     /\ rdr' = IF rdr.pc = "idle" THEN rdr
               ELSE [rdr EXCEPT !.seen = @ \cup {Vis(ApplyTx(logical, tx)[rdr.loc])}]
+    /\ UNCHANGED cur
     /\ queue' = Append(queue, [cid |-> nextCid + 1, h |-> Len(hist) + 1, tx |-> tx])
     /\ covl' = CovlAdd(covl, nextCid + 1, tx, 1)
     /\ UNCHANGED <<lw, nextRid, logs, rpos, lovl, cw, lastEnacted, tabs, dtabs,
@@ -273,7 +277,7 @@ Reject(tx) ==
     /\ calls' = calls + 1
     /\ UNCHANGED <<hist, logical, queue, nextCid, covl, lw, nextRid, logs, rpos, lovl, cw,
                    lastEnacted, tabs, dtabs, flushedCq, applied, durable, mode, rcv, ncrash,
-                   naux, lastRec, rdr>>
+                   naux, lastRec, rdr, cur>>
     /\ Log([a |-> "Commit", tx |-> tx, ok |-> FALSE, obs |-> Obs'])
 
 ----------------------------------------------------------------------------
@@ -292,7 +296,7 @@ PopAndPlan ==
        /\ queue' = Tail(queue)
        /\ nextRid' = nextRid + 1
     /\ UNCHANGED <<hist, logical, calls, nextCid, covl, logs, rpos, lovl, cw, lastEnacted, tabs,
-                   dtabs, flushedCq, applied, durable, mode, rcv, ncrash, naux, lastRec, rdr>>
+                   dtabs, flushedCq, applied, durable, mode, rcv, ncrash, naux, lastRec, rdr, cur>>
     /\ NoLog
 
 \* log.rs end_record: append to the log file and publish into lovl (one write lock)
@@ -303,7 +307,7 @@ EndRecord ==
     /\ lovl' = LovlAdd(lovl, lw.rec)
     /\ lw' = IF "clean_covl_first" \in Mut THEN Idle ELSE [lw EXCEPT !.pc = "ended"]
     /\ UNCHANGED <<hist, logical, calls, queue, nextCid, covl, nextRid, rpos, cw, lastEnacted,
-                   tabs, dtabs, flushedCq, applied, durable, mode, rcv, ncrash, naux, lastRec, rdr>>
+                   tabs, dtabs, flushedCq, applied, durable, mode, rcv, ncrash, naux, lastRec, rdr, cur>>
     /\ NoLog
 
 \* the overlay entries of the commit are dropped only after lovl holds them
@@ -314,7 +318,7 @@ CleanCovl ==
     /\ lw' = IF "clean_covl_first" \in Mut THEN [lw EXCEPT !.pc = "cleaned"] ELSE Idle
     /\ UNCHANGED <<hist, logical, calls, queue, nextCid, nextRid, logs, rpos, lovl, cw,
                    lastEnacted, tabs, dtabs, flushedCq, applied, durable, mode, rcv, ncrash,
-                   naux, lastRec, rdr>>
+                   naux, lastRec, rdr, cur>>
     /\ NoLog
 
 \* stepping API: Db::process_commits() = the three steps above, uninterrupted
@@ -328,7 +332,7 @@ ProcessCommit ==
        /\ lovl' = LovlAdd(lovl, rec)
        /\ covl' = CovlClean(covl, c.cid, c.tx)
     /\ UNCHANGED <<hist, logical, calls, nextCid, lw, rpos, cw, lastEnacted, tabs, dtabs,
-                   flushedCq, applied, durable, mode, rcv, ncrash, naux, lastRec, rdr>>
+                   flushedCq, applied, durable, mode, rcv, ncrash, naux, lastRec, rdr, cur>>
     /\ Log([a |-> "ProcessCommit", obs |-> Obs'])
 
 \* A record that originates inside the database (reindex batch): consumes a record id,
@@ -339,7 +343,7 @@ AuxRecord ==
     /\ nextRid' = nextRid + 1
     /\ logs' = AppendRec([rid |-> nextRid, h |-> 0, cid |-> 0, w |-> <<>>])
     /\ UNCHANGED <<hist, logical, calls, queue, nextCid, covl, lw, rpos, lovl, cw, lastEnacted,
-                   tabs, dtabs, flushedCq, applied, durable, mode, rcv, ncrash, lastRec, rdr>>
+                   tabs, dtabs, flushedCq, applied, durable, mode, rcv, ncrash, lastRec, rdr, cur>>
     /\ Log([a |-> "AuxRecord", obs |-> Obs'])
 
 ----------------------------------------------------------------------------
@@ -353,7 +357,7 @@ FlushLog ==
     /\ durable' = IF SyncWal THEN Max(durable, MaxH(logs[Len(logs)].recs, 1)) ELSE durable
     /\ UNCHANGED applied
     /\ UNCHANGED <<hist, logical, calls, queue, nextCid, covl, lw, nextRid, rpos, lovl, cw,
-                   lastEnacted, tabs, dtabs, flushedCq, mode, rcv, ncrash, naux, lastRec, rdr>>
+                   lastEnacted, tabs, dtabs, flushedCq, mode, rcv, ncrash, naux, lastRec, rdr, cur>>
     /\ Log([a |-> "FlushLog", obs |-> Obs'])
 
 ----------------------------------------------------------------------------
@@ -377,7 +381,7 @@ LogEof ==
        /\ logs' = [logs EXCEPT ![f].st = "cq"]
     /\ rpos' = 0
     /\ UNCHANGED <<hist, logical, calls, queue, nextCid, covl, lw, nextRid, lovl, cw, lastEnacted,
-                   tabs, dtabs, flushedCq, applied, durable, mode, rcv, ncrash, naux, lastRec, rdr>>
+                   tabs, dtabs, flushedCq, applied, durable, mode, rcv, ncrash, naux, lastRec, rdr, cur>>
     /\ Log([a |-> "EnactOne", obs |-> Obs'])
 
 EnactBegin ==
@@ -390,7 +394,7 @@ EnactBegin ==
        /\ rpos' = n.r - 1
        /\ lovl' = IF "endread_first" \in Mut THEN LovlClean(lovl, logs[n.f].recs[n.r]) ELSE lovl
     /\ UNCHANGED <<hist, logical, calls, queue, nextCid, covl, lw, nextRid, lastEnacted,
-                   tabs, dtabs, flushedCq, applied, durable, mode, rcv, ncrash, naux, lastRec, rdr>>
+                   tabs, dtabs, flushedCq, applied, durable, mode, rcv, ncrash, naux, lastRec, rdr, cur>>
     /\ NoLog
 
 EnactWrite(l) ==
@@ -398,7 +402,7 @@ EnactWrite(l) ==
     /\ tabs' = [tabs EXCEPT ![l] = cw.rec.w[l]]
     /\ cw' = [cw EXCEPT !.todo = @ \ {l}]
     /\ UNCHANGED <<hist, logical, calls, queue, nextCid, covl, lw, nextRid, logs, rpos, lovl,
-                   lastEnacted, dtabs, flushedCq, applied, durable, mode, rcv, ncrash, naux, lastRec, rdr>>
+                   lastEnacted, dtabs, flushedCq, applied, durable, mode, rcv, ncrash, naux, lastRec, rdr, cur>>
     /\ NoLog
 
 EnactEnd ==
@@ -407,7 +411,7 @@ EnactEnd ==
     /\ applied' = Max(applied, cw.rec.h)
     /\ cw' = [cw EXCEPT !.pc = "written"]
     /\ UNCHANGED <<hist, logical, calls, queue, nextCid, covl, lw, nextRid, logs, rpos, lovl,
-                   tabs, dtabs, flushedCq, durable, mode, rcv, ncrash, naux, lastRec, rdr>>
+                   tabs, dtabs, flushedCq, durable, mode, rcv, ncrash, naux, lastRec, rdr, cur>>
     /\ NoLog
 
 \* log.rs end_read: lovl entries dropped only after the tables hold them
@@ -417,7 +421,7 @@ EndRead ==
     /\ rpos' = rpos + 1
     /\ cw' = Idle
     /\ UNCHANGED <<hist, logical, calls, queue, nextCid, covl, lw, nextRid, logs, lastEnacted,
-                   tabs, dtabs, flushedCq, applied, durable, mode, rcv, ncrash, naux, lastRec, rdr>>
+                   tabs, dtabs, flushedCq, applied, durable, mode, rcv, ncrash, naux, lastRec, rdr, cur>>
     /\ NoLog
 
 \* stepping API: one enact_logs(false) call that finds a record
@@ -433,7 +437,7 @@ EnactOne ==
        /\ logs' = IF logs[n.f].st \in {"rq", "app"} THEN [logs EXCEPT ![n.f].st = "rd"] ELSE logs
        /\ rpos' = n.r
     /\ UNCHANGED <<hist, logical, calls, queue, nextCid, covl, lw, nextRid, cw, dtabs, flushedCq,
-                   durable, mode, rcv, ncrash, naux, lastRec, rdr>>
+                   durable, mode, rcv, ncrash, naux, lastRec, rdr, cur>>
     /\ Log([a |-> "EnactOne", obs |-> Obs'])
 
 ----------------------------------------------------------------------------
@@ -445,7 +449,7 @@ FlushTables ==
     /\ dtabs' = tabs
     /\ flushedCq' = NumCq
     /\ UNCHANGED <<hist, logical, calls, queue, nextCid, covl, lw, nextRid, logs, rpos, lovl, cw,
-                   lastEnacted, tabs, applied, durable, mode, rcv, ncrash, naux, lastRec, rdr>>
+                   lastEnacted, tabs, applied, durable, mode, rcv, ncrash, naux, lastRec, rdr, cur>>
     /\ NoLog
 
 \* log.rs clean_logs: set_len(0) + sync_all of a file whose changes were flushed
@@ -458,7 +462,7 @@ TruncateLog ==
     /\ flushedCq' = IF flushedCq > 0 THEN flushedCq - 1 ELSE 0
     /\ rpos' = IF logs[1].st = "rd" THEN 0 ELSE rpos
     /\ UNCHANGED <<hist, logical, calls, queue, nextCid, covl, lw, nextRid, lovl, cw,
-                   lastEnacted, tabs, dtabs, applied, durable, mode, rcv, ncrash, naux, lastRec, rdr>>
+                   lastEnacted, tabs, dtabs, applied, durable, mode, rcv, ncrash, naux, lastRec, rdr, cur>>
     /\ NoLog
 
 \* stepping API: Db::clean_logs()
@@ -468,7 +472,7 @@ Clean ==
     /\ logs' = SubSeq(logs, NumCq + 1, Len(logs))
     /\ flushedCq' = 0
     /\ UNCHANGED <<hist, logical, calls, queue, nextCid, covl, lw, nextRid, rpos, lovl, cw,
-                   lastEnacted, tabs, applied, durable, mode, rcv, ncrash, naux, lastRec, rdr>>
+                   lastEnacted, tabs, applied, durable, mode, rcv, ncrash, naux, lastRec, rdr, cur>>
     /\ Log([a |-> "Clean", obs |-> Obs'])
 
 ----------------------------------------------------------------------------
@@ -497,7 +501,7 @@ CloseOpen ==
     /\ queue' = <<>> /\ covl' = [l \in Loc |-> NoCovl] /\ lovl' = [l \in Loc |-> NoLovl]
     /\ logs' = <<>> /\ rpos' = 0 /\ flushedCq' = 0
     /\ nextRid' = 1 /\ nextCid' = 0 /\ lastEnacted' = 1
-    /\ durable' = Len(hist) /\ applied' = Len(hist)
+    /\ durable' = Len(hist) /\ applied' = Len(hist) /\ cur' = NoCur
     /\ UNCHANGED <<hist, logical, calls, lw, cw, mode, rcv, ncrash, naux, lastRec, rdr>>
     /\ Log([a |-> "CloseOpen", obs |-> Obs'])
 
@@ -506,7 +510,7 @@ CloseOpen ==
 
 Volatile ==
     /\ queue' = <<>> /\ covl' = [l \in Loc |-> NoCovl] /\ lovl' = [l \in Loc |-> NoLovl]
-    /\ lw' = Idle /\ cw' = Idle /\ nextCid' = 0 /\ rdr' = [pc |-> "idle"]
+    /\ lw' = Idle /\ cw' = Idle /\ nextCid' = 0 /\ rdr' = [pc |-> "idle"] /\ cur' = NoCur
 
 \* what a log file keeps when the process dies: everything written (BufWriter is flushed
 \* at the end of every record); a record being appended may be torn.
@@ -595,7 +599,7 @@ RecoverStart ==
     /\ rcv' = [f |-> 1, r |-> 0, any |-> FALSE,
                pre |-> applied, dmg |-> DamageClass]
     /\ UNCHANGED <<hist, logical, calls, queue, nextCid, covl, lw, nextRid, rpos, lovl, cw, tabs,
-                   dtabs, flushedCq, applied, durable, ncrash, naux, lastRec, rdr>>
+                   dtabs, flushedCq, applied, durable, ncrash, naux, lastRec, rdr, cur>>
     /\ NoLog
 
 \* enact_logs(true): a record is applied only if it is complete, checksum-valid (a torn
@@ -615,7 +619,7 @@ RecoverRec ==
        ELSE /\ rcv' = [rcv EXCEPT !.f = @ + 1, !.r = 0]           \* next file
             /\ UNCHANGED <<tabs, lastEnacted, applied>>
     /\ UNCHANGED <<hist, logical, calls, queue, nextCid, covl, lw, nextRid, logs, rpos, lovl, cw,
-                   dtabs, flushedCq, durable, mode, ncrash, naux, lastRec, rdr>>
+                   dtabs, flushedCq, durable, mode, ncrash, naux, lastRec, rdr, cur>>
     /\ NoLog
 
 \* clean_all_logs (msync), kill_logs (delete); the handle is now open.
@@ -635,7 +639,7 @@ RecoverDone ==
     /\ mode' = "open"
     /\ applied' = IF lastRec'.ok THEN lastRec'.n ELSE applied
     /\ UNCHANGED <<calls, queue, nextCid, covl, lw, rpos, lovl, cw, lastEnacted, tabs,
-                   flushedCq, rcv, ncrash, naux, rdr>>
+                   flushedCq, rcv, ncrash, naux, rdr, cur>>
     /\ Log([a |-> "Reopen", n |-> lastRec'.n, lo |-> lastRec'.lo, dmg |-> rcv.dmg, obs |-> Obs'])
 
 ----------------------------------------------------------------------------
@@ -649,7 +653,7 @@ CorruptTruncate(f, keep, torn) ==
     /\ logs' = [logs EXCEPT ![f].recs = SubSeq(@, 1, keep), ![f].partial = torn]
     /\ naux' = naux + 1
     /\ UNCHANGED <<hist, logical, calls, queue, nextCid, covl, lw, nextRid, rpos, lovl, cw,
-                   lastEnacted, tabs, dtabs, flushedCq, applied, durable, mode, rcv, ncrash, lastRec, rdr>>
+                   lastEnacted, tabs, dtabs, flushedCq, applied, durable, mode, rcv, ncrash, lastRec, rdr, cur>>
     /\ Log([a |-> "CorruptTruncate", f |-> f, keep |-> keep, torn |-> torn])
 
 \* flip bits inside record r of file f: its checksum no longer matches
@@ -659,7 +663,7 @@ CorruptRecord(f, r) ==
     /\ logs' = [logs EXCEPT ![f].recs[r] = [rid |-> @.rid, h |-> @.h, cid |-> @.cid, w |-> @.w, bad |-> TRUE]]
     /\ naux' = naux + 1
     /\ UNCHANGED <<hist, logical, calls, queue, nextCid, covl, lw, nextRid, rpos, lovl, cw,
-                   lastEnacted, tabs, dtabs, flushedCq, applied, durable, mode, rcv, ncrash, lastRec, rdr>>
+                   lastEnacted, tabs, dtabs, flushedCq, applied, durable, mode, rcv, ncrash, lastRec, rdr, cur>>
     /\ Log([a |-> "CorruptRecord", f |-> f, r |-> r])
 
 \* a log file disappears
@@ -669,7 +673,7 @@ CorruptDelete(f) ==
     /\ logs' = SubSeq(logs, 1, f - 1) \o SubSeq(logs, f + 1, Len(logs))
     /\ naux' = naux + 1
     /\ UNCHANGED <<hist, logical, calls, queue, nextCid, covl, lw, nextRid, rpos, lovl, cw,
-                   lastEnacted, tabs, dtabs, flushedCq, applied, durable, mode, rcv, ncrash, lastRec, rdr>>
+                   lastEnacted, tabs, dtabs, flushedCq, applied, durable, mode, rcv, ncrash, lastRec, rdr, cur>>
     /\ Log([a |-> "CorruptDelete", f |-> f])
 
 ----------------------------------------------------------------------------
@@ -684,7 +688,7 @@ IoFailAppend(torn) ==
     /\ logs' = IF torn /\ HasApp THEN [logs EXCEPT ![Len(logs)].partial = TRUE] ELSE logs
     /\ mode' = "err"
     /\ UNCHANGED <<hist, logical, calls, nextCid, covl, lw, rpos, lovl, cw, lastEnacted, tabs,
-                   dtabs, flushedCq, applied, durable, rcv, ncrash, naux, lastRec, rdr>>
+                   dtabs, flushedCq, applied, durable, rcv, ncrash, naux, lastRec, rdr, cur>>
     /\ Log([a |-> "IoFailAppend", obs |-> Obs'])
 
 \* enact_logs fails after writing the locations in `done` of the next record
@@ -696,7 +700,7 @@ IoFailEnact(done) ==
        /\ tabs' = [l \in Loc |-> IF l \in done THEN logs[n.f].recs[n.r].w[l] ELSE tabs[l]]
     /\ mode' = "err"
     /\ UNCHANGED <<hist, logical, calls, queue, nextCid, covl, lw, nextRid, logs, rpos, lovl, cw,
-                   lastEnacted, dtabs, flushedCq, applied, durable, rcv, ncrash, naux, lastRec, rdr>>
+                   lastEnacted, dtabs, flushedCq, applied, durable, rcv, ncrash, naux, lastRec, rdr, cur>>
     /\ Log([a |-> "IoFailEnact", obs |-> Obs'])
 
 \* any other failing step (sync, truncate, flush): nothing changes but the mode
@@ -704,7 +708,7 @@ IoFailOther ==
     /\ "iofail" \in Feat /\ mode = "open" /\ LwIdle /\ CwIdle
     /\ mode' = "err"
     /\ UNCHANGED <<hist, logical, calls, queue, nextCid, covl, lw, nextRid, logs, rpos, lovl, cw,
-                   lastEnacted, tabs, dtabs, flushedCq, applied, durable, rcv, ncrash, naux, lastRec, rdr>>
+                   lastEnacted, tabs, dtabs, flushedCq, applied, durable, rcv, ncrash, naux, lastRec, rdr, cur>>
     /\ Log([a |-> "IoFailOther", obs |-> Obs'])
 
 \* drop in the error state (kill_logs): fully enacted logs are truncated, nothing else is
@@ -720,9 +724,82 @@ DropErr ==
     /\ Log([a |-> "DropErr"])
 
 ----------------------------------------------------------------------------
+(* Btree iterator (C04): the abstract ordered-map cursor.  Keys are ranks in the run's key
+   universe (byte order = numeric order).  Every call is answered against the latest
+   committed state, wherever the data currently sits. *)
+
+IsBtree(c) == Kind[c] \in {"btree", "btree_rc"}
+Live(c) == {k \in Keys : Present(logical[<<c, k>>])}
+CurOthers == UNCHANGED <<hist, logical, calls, queue, nextCid, covl, lw, nextRid, logs, rpos, lovl, cw,
+                         lastEnacted, tabs, dtabs, flushedCq, applied, durable, mode, rcv, ncrash, naux,
+                         lastRec, rdr>>
+
+CurOpen(c) ==
+    /\ "cursor" \in Feat /\ mode = "open" /\ IsBtree(c) /\ ~cur.open
+    /\ CurOthers
+    /\ cur' = [open |-> TRUE, c |-> c, t |-> "start", k |-> 0]
+    /\ Log([a |-> "CurOpen", c |-> c])
+
+CurClose ==
+    /\ cur.open /\ cur' = NoCur
+    /\ CurOthers
+    /\ Log([a |-> "CurClose"])
+
+\* seek(k): the next forward step yields the smallest key >= k, backward the largest <= k
+CurSeek(k) ==
+    /\ cur.open /\ mode = "open"
+    /\ CurOthers
+    /\ cur' = [cur EXCEPT !.t = "seeked", !.k = k]
+    /\ Log([a |-> "CurSeek", k |-> k])
+
+\* seek_to_first = seek(empty key); the universe of cursor runs has no empty key: rank 0
+CurFirst ==
+    /\ cur.open /\ mode = "open"
+    /\ CurOthers
+    /\ cur' = [cur EXCEPT !.t = "seeked", !.k = 0]
+    /\ Log([a |-> "CurFirst"])
+
+CurLast ==
+    /\ cur.open /\ mode = "open"
+    /\ CurOthers
+    /\ cur' = [cur EXCEPT !.t = "end", !.k = 0]
+    /\ Log([a |-> "CurLast"])
+
+NextCands == CASE cur.t = "start"  -> Live(cur.c)
+               [] cur.t = "seeked" -> {x \in Live(cur.c) : x >= cur.k}
+               [] cur.t = "at"     -> {x \in Live(cur.c) : x > cur.k}
+               [] OTHER            -> {}
+PrevCands == CASE cur.t = "end"    -> Live(cur.c)
+               [] cur.t = "seeked" -> {x \in Live(cur.c) : x <= cur.k}
+               [] cur.t = "at"     -> {x \in Live(cur.c) : x < cur.k}
+               [] OTHER            -> {}
+CurResult(k) == <<k, logical[<<cur.c, k>>].v>>
+
+NextRes == IF NextCands = {} THEN <<>> ELSE CurResult(MinOf(NextCands))
+PrevRes == IF PrevCands = {} THEN <<>> ELSE CurResult(MaxOf(PrevCands))
+
+CurNext ==
+    /\ cur.open /\ mode = "open"
+    /\ CurOthers
+    /\ IF NextCands = {}
+       THEN cur' = [cur EXCEPT !.t = "end", !.k = 0] /\ Log([a |-> "CurNext", res |-> <<>>])
+       ELSE LET k == MinOf(NextCands) IN
+            cur' = [cur EXCEPT !.t = "at", !.k = k] /\ Log([a |-> "CurNext", res |-> CurResult(k)])
+
+CurPrev ==
+    /\ cur.open /\ mode = "open"
+    /\ CurOthers
+    /\ IF PrevCands = {}
+       THEN cur' = [cur EXCEPT !.t = "start", !.k = 0] /\ Log([a |-> "CurPrev", res |-> <<>>])
+       ELSE LET k == MaxOf(PrevCands) IN
+            cur' = [cur EXCEPT !.t = "at", !.k = k] /\ Log([a |-> "CurPrev", res |-> CurResult(k)])
+
+----------------------------------------------------------------------------
 Next ==
     \/ \E tx \in Txs : Commit(tx) \/ Reject(tx)
     \/ (\E l \in Loc : RStart(l)) \/ RLovl \/ RTabs \/ RFinish
+    \/ (\E c \in Cols : CurOpen(c)) \/ CurClose \/ (\E k \in Keys : CurSeek(k)) \/ CurFirst \/ CurLast
+    \/ CurNext \/ CurPrev
     \/ PopAndPlan \/ EndRecord \/ CleanCovl \/ ProcessCommit \/ AuxRecord
     \/ FlushLog
     \/ LogEof \/ EnactBegin \/ (\E l \in Loc : EnactWrite(l)) \/ EnactEnd \/ EndRead \/ EnactOne
@@ -793,10 +870,10 @@ WalBeforeApply ==
 
 \* hide the history variable (and the bookkeeping that depends on it only through reads)
 \* for configs without crashes the history matters only through the logical state
-ViewLogical == <<rdr, logical, calls, queue, nextCid, covl, lw, nextRid, logs, rpos, lovl, cw,
+ViewLogical == <<rdr, cur, logical, calls, queue, nextCid, covl, lw, nextRid, logs, rpos, lovl, cw,
                  lastEnacted, tabs, dtabs, flushedCq, applied, durable, mode, rcv, ncrash, naux, lastRec>>
 
-ViewNoTrace == <<rdr, hist, logical, calls, queue, nextCid, covl, lw, nextRid, logs, rpos, lovl, cw,
+ViewNoTrace == <<rdr, cur, hist, logical, calls, queue, nextCid, covl, lw, nextRid, logs, rpos, lovl, cw,
                  lastEnacted, tabs, dtabs, flushedCq, applied, durable, mode, rcv, ncrash, naux, lastRec>>
 
 =============================================================================
